@@ -112,7 +112,8 @@ impl<const N: usize> BytesN<N> {
     #[verifier::external_body]
     pub fn len(&self) -> (r: u32) ensures r as int == self@.len(), r as int == N { unimplemented!() }
     #[verifier::external_body]
-    pub fn is_empty(&self) -> (r: bool) ensures r == (self@.len() == 0) { unimplemented!() }
+    /// soroban-sdk implements `BytesN::is_empty` as the constant `false` (cross-checked: kani/sdkmodel)
+    pub fn is_empty(&self) -> (r: bool) ensures !r { unimplemented!() }
     #[verifier::external_body]
     pub fn get(&self, i: u32) -> (r: Option<u8>)
         ensures r == (if (i as int) < self@.len() { Some(self@[i as int]) } else { None::<u8> }),
